@@ -168,6 +168,20 @@ def ref_filehandler(std, max_size, old_files, when, interval, encoding, delay):
                             ('encoding', enc), ('delay', dl)])
 
 
+class ArgsBox:
+    """class name and constructor arguments of a handler; either is None when it can only be seen by
+    building the handler (a factory that is not a functools.partial, on symbolic options).  One fixed JSON
+    form, so that the symbolic outcome and the replayed concrete one compare equal as records while
+    agree() looks inside"""
+
+    def __init__(self, v, name=None):
+        self.v = v
+        self.name = name
+
+    def __repr__(self):
+        return 'handler'
+
+
 class C20(Harness):
     prop = 'C20'
     domain = 'D'
@@ -328,18 +342,57 @@ class C20(Harness):
             f = handlers.FileHandlerFactory(sec)
         except ValueError:
             return ('ValueError',)
-        fac = f._factory
+        # the public way to get the handler is create_loghandler(); a functools.partial kept in _factory (as the
+        # current code does) can be inspected without building anything
+        fac = getattr(f, '_factory', None)
+        if fac is None:
+            fac = f.create_loghandler
         name = getattr(getattr(fac, 'func', None), '__name__', None)
-        if name is None:
+        NP = 'NOT-PASSED'
+        if name is not None:
+            # a functools.partial: the arguments the handler will be built with (no I/O needed, works on
+            # symbolic integers); every configured option must arrive there
+            kw = dict(fac.keywords or {})
+            pos = list(fac.args[1:])
+            args = [('path', fac.args[0] == path if fac.args else kw.get('filename') == path)]
+            for nm in ('maxBytes', 'backupCount', 'when', 'interval', 'encoding', 'delay'):
+                args.append((nm, kw.get(nm, NP)))
+            if pos:
+                args = None            # positional spelling: not decoded here, see below
+        else:
+            args = None
+        if args is None:
+            # any other kind of factory: build the handler and look at it - only possible on concrete
+            # option values (the pristine replay of every path's witness comes through here)
+            if not all(isinstance(v, (int, bool, str, type(None))) for v in inp.values()):
+                if name is None and pi != 2:
+                    h = fac()
+                    name = type(h).__name__
+                return ('ok', ArgsBox(None, name))
             h = fac()
             name = type(h).__name__
-            return ('ok', name, [])
-        # the arguments the handler will be built with: every configured option must arrive there
-        kw = dict(fac.keywords or {})
-        args = [('path', fac.args[0] == path if fac.args else False)]
-        for nm in ('maxBytes', 'backupCount', 'when', 'interval', 'encoding', 'delay'):
-            args.append((nm, kw.get(nm, 'NOT-PASSED')))
-        return ('ok', name, args)
+            if pi != 2:
+                return ('ok', ArgsBox([], name))
+            try:
+                when = getattr(h, 'when', NP)
+                args = [('path', getattr(h, 'baseFilename', None) == os.path.abspath(path)),
+                        ('maxBytes', getattr(h, 'maxBytes', NP)), ('backupCount', getattr(h, 'backupCount', NP)),
+                        ('when', when), ('interval', (h.interval // 86400) if when == 'D' else NP),
+                        # logging stores io.text_encoding(None) == 'locale' for "no encoding given"
+                        ('encoding', None if h.encoding == 'locale' else h.encoding), ('delay', h.delay)]
+                if name == 'FileHandler':
+                    args[1] = ('maxBytes', NP)
+                    args[2] = ('backupCount', NP)
+            finally:
+                h.close()
+                for fn in (path,):
+                    try:
+                        os.unlink(fn)
+                    except OSError:
+                        pass
+        if name == 'StreamHandler' or pi != 2:
+            args = []
+        return ('ok', ArgsBox(args, name))
 
     def _format(self, unit):
         import ZConfig
@@ -594,6 +647,16 @@ class C20(Harness):
 
     def agree(self, unit, real, exp):
         k = unit['kind']
+        if k == 'filehandler' and real[0] == 'ok' and exp[0] == 'ok':
+            box = real[1]
+            # a factory that cannot be inspected without building the handler, on symbolic options: class and
+            # arguments are compared on the concrete replay of the path's witness instead
+            conds = [z3.BoolVal(True)]
+            if box.name is not None:
+                conds.append(deep_eq(box.name, exp[1]))
+            if box.v is not None:
+                conds.append(deep_eq(list(box.v), list(exp[2])))
+            return z3.And(conds)
         if k == 'format':
             # accepted at load time => builds a formatter that formats an ordinary record
             if real[0] == 'ValueError':
